@@ -1041,6 +1041,7 @@ def check_vol_case(ctx, descr, g, arr, mk, reqs, pending):
     st, seg = _fetch(mk)
     hkey = dict(stream=descr['stream'], type=seg_type, omit=descr['omit'], empties=descr['empties'], handed=descr['h'],
                 with_sbs=descr.get('with_sbs'), parallel_to_source=descr.get('parallel_to_source'),
+                continues_source_series=descr.get('continues_source_series'),
                 exact=exact, layout=layout, n0=shape[0], memory=descr.get('memory'), type_spelling=descr.get('type_spelling'),
                 transfer_syntax=descr.get('transfer_syntax'), workers=str(descr.get('workers')),
                 square=shape[1] == shape[2], thin_slices=F(descr['spacing'][0]) < F(1, 4), caller_mutates=descr.get('caller_mutates'))
@@ -1209,6 +1210,14 @@ def build_place_case(ctx, idx):
     sbs_sign = -1 if (with_sbs and ctx.rng('placesign', idx).random() < 0.3) else 1
     # source series: axial, same number of planes and frame size (what the constructor may compare with)
     src = ct_series(n0, shape[1], shape[2], slice_spacing=2.5)
+    rp = ctx.rng('placeprefix', idx)
+    prefix = n0 >= 2 and rp.random() < 0.1
+    if prefix:
+        # the planes continue the source series: the first planes lie AT the source positions with the source's orientation and
+        # spacing, but there are more planes than source images (nothing is preserved plane by plane beyond the series)
+        g = {'d': [[F(0), F(0), F(1)], [F(0), F(1), F(0)], [F(1), F(0), F(0)]], 's': [F(5, 2), F(1), F(1)], 'p': [F(0), F(0), F(0)],
+             'exact': True, 'label': 'series', 'h': -1}
+        src = ct_series(rp.randint(1, n0 - 1), shape[1], shape[2], slice_spacing=2.5)
     a = affine_of(g)
     bufs = draw_buffers(ctx, 'place', idx)
     geom = hd.VolumeGeometry(bufs.give(a, dtype=np.float64), shape, 'PATIENT', frame_of_reference_uid=src[0].FrameOfReferenceUID)
@@ -1222,7 +1231,7 @@ def build_place_case(ctx, idx):
              'shape': list(shape), 'spacing': [rstr(x) for x in g['s']], 'position': [rstr(x) for x in g['p']],
              'type': seg_type, 'nseg': nseg, 'layout': layout, 'omit': omit, 'empties': mode, 'empty_planes': sorted(empties),
              'memory': mem, 'type_spelling': typ_spell, 'placement': 'explicit', 'with_sbs': with_sbs, 'sbs_sign': sbs_sign,
-             'parallel_to_source': parallel, 'caller_mutates': bufs.active}
+             'parallel_to_source': parallel, 'caller_mutates': bufs.active, 'continues_source_series': prefix}
 
     def mk():
         bufs.scribble()                                 # the affine buffer is re-used after the geometry was built
